@@ -289,6 +289,12 @@ Ltac head_if E :=
   lazymatch goal with
   | |- ?P (if ?c then _ else _) => destruct c eqn:E
   end.
+(* unfold a let-bound continuation at the head:  P (k args)  with  k := fun .. => ..  in the context *)
+Ltac head_unfold :=
+  lazymatch goal with
+  | |- ?P (?f ?a) => is_var f; let body := eval cbv delta [f] in f in change (P (body a)); cbv beta
+  end.
+Ltac walk := repeat first [pull_let | head_unfold].
 (* same for the left-hand side of an equation *)
 Ltac pull_let_eq :=
   lazymatch goal with
@@ -379,14 +385,47 @@ Lemma magnet_vec2 (lower upper : arr T) (l : list Z) p (body : Z -> arr T -> arr
   (forall ix q, vec2 q -> vec2 (body ix q)) -> vec2 p -> vec2 (for_list l body p).
 Proof. intros Hb Hp. apply for_list_inv; auto. Qed.
 
+Lemma St2_eta (s : St2) :
+  (s_count s, s_delta s, s_lower s, s_nfree s, s_pcur s, s_ray s, s_upper s) = s.
+Proof. destruct s as [[[[[[? ?] ?] ?] ?] ?] ?]. reflexivity. Qed.
+Lemma len2_set (a : arr T) i v : length (dat a) = 2%nat -> length (dat (set a i v)) = 2%nat.
+Proof. intros E. simpl. rewrite upd_length. exact E. Qed.
+Lemma len2_amap (f : T -> T) (a : arr T) : length (dat a) = 2%nat -> length (dat (amap f a)) = 2%nat.
+Proof. intros E. simpl. rewrite map_length. exact E. Qed.
+Lemma vec2_for_list (l : list Z) (body : Z -> arr T -> arr T) p :
+  (forall ix q, vec2 q -> vec2 (body ix q)) -> vec2 p -> vec2 (for_list l body p).
+Proof. intros Hb Hp. apply for_list_inv; auto. Qed.
+Lemma clamped_intro z x p a b : vec2 p -> clamped z x (set (set p [0] (clamp z a)) [1] (clamp x b)).
+Proof.
+  intros Hp. destruct (get_set2 (nofZ 0) p (clamp z a) (clamp x b) Hp) as [G0 G1].
+  split; [exists a; exact G0|exists b; exact G1].
+Qed.
+
+Ltac leaf_open Ebud :=
+  lazymatch goal with
+  | |- step_spec _ _ _ _ _ _ (_ ?tup) =>
+     right; apply orb_false_elim in Ebud;
+     let E1 := fresh "Eb1" in let E2 := fresh "Eb2" in
+     destruct Ebud as [E1 E2]; apply Z.leb_gt in E1; apply Z.ltb_ge in E2;
+     split; [exact E1|]; split; [exact E2|]; exists tup
+  end.
+Ltac solve_vec2 Hp Hd :=
+  repeat first
+    [ exact Hp | exact Hd
+    | apply len2_set | apply len2_amap | apply vec2_set | apply vec2_amap2
+    | apply vec2_for_list;
+      [ let ix := fresh "ix" in let q := fresh "q" in let Hq := fresh "Hq" in
+        intros ix q Hq; cbv beta zeta;
+        repeat (match goal with |- context [if ?c then _ else _] => destruct c end);
+        repeat apply vec2_set; exact Hq | ] ].
+
 Section Char.
 Variables (z x zgrad xgrad : arr T) (zend xend zsrc xsrc stepsize : T) (max_step : Z) (hg : bool).
 
 (* carrier used to walk through the generated definition before choosing the witnesses *)
 Definition ign {X} (G : Prop) (r : X) : Prop := G.
 
-Lemma ray2d_core_char :
-  hull2 z x zend xend = true ->
+Definition core_char_stmt : Prop :=
   exists (cond : St2 -> bool) (body : St2 -> ctl St2) (s0 : St2),
     (forall fuel,
        u_ray2d_core_v fuel z x zgrad xgrad zend xend zsrc xsrc stepsize max_step hg =
@@ -394,17 +433,22 @@ Lemma ray2d_core_char :
     (s_count s0 = 1 /\ s_nfree s0 = 0 /\ s_pcur s0 = of_list [zend; xend] /\
      s_ray s0 = set_sub (full [max_step; 2] (nofZ 0)) [0] (of_list [zend; xend]) /\ InvS s0) /\
     (forall s, InvS s -> step_spec hg max_step (nfree_max2 z x stepsize) z x s (body s)).
+
+(* NB: `unfold` zeta-normalises, which would expand every let of the loop body; the walk below
+   only uses `cbv beta delta [...]`, `change`, `intro` and `destruct`. *)
+Lemma ray2d_core_char : hull2 z x zend xend = true -> core_char_stmt.
 Proof.
   intros Hh.
-  lazymatch goal with |- ?G =>
-    change (ign G (u_ray2d_core_v 0%nat z x zgrad xgrad zend xend zsrc xsrc stepsize max_step hg)) end.
-  unfold u_ray2d_core_v. pull_lets.
+  change (ign core_char_stmt
+            (u_ray2d_core_v 0%nat z x zgrad xgrad zend xend zsrc xsrc stepsize max_step hg)).
+  cbv beta delta [u_ray2d_core_v]. pull_lets.
   lazymatch goal with |- ign ?G (if _ then _ else ?e) => change (ign G e) end.
   pull_lets.
   repeat match goal with v := _ |- _ => subst v end.
-  lazymatch goal with |- ign _ (rbind (while_fuel _ ?C ?B ?s0) _) => unfold ign; exists C, B, s0 end.
+  lazymatch goal with |- ign _ (rbind (while_fuel _ ?C ?B ?s0) _) =>
+    change core_char_stmt; cbv beta delta [core_char_stmt]; exists C, B, s0 end.
   split; [|split].
-  - intros fuel. unfold u_ray2d_core_v.
+  - intros fuel. cbv beta delta [u_ray2d_core_v].
     repeat pull_let_eq.
     apply if_negb_true; [exact Hh|].
     repeat pull_let_eq.
@@ -412,15 +456,22 @@ Proof.
     reflexivity.
   - split; [reflexivity|]. split; [reflexivity|]. split; [reflexivity|]. split; [reflexivity|].
     split; [apply vec2_of_list|reflexivity].
-  - intros s Hs. cbv beta. pull_lets. head_if Ebud.
-    + left. Show. admit.
+  - intros s Hs. destruct Hs as [Hp Hd]. cbv beta. pull_lets. head_if Ebud.
+    + left. exact (f_equal Brk (St2_eta s)).
     + pull_lets. head_if Egn.
       * pull_lets. head_if Ehg.
         -- pull_lets. head_if Efac.
-           ++ pull_lets. Show. admit.
-           ++ pull_lets. Show. admit.
-        -- pull_lets. Show. admit.
-      * left. admit.
-Admitted.
+           ++ pull_lets. head_if Esrc.
+              ** leaf_open Ebud. split; [split; cbn [s_pcur s_delta fst snd]; solve_vec2 Hp Hd|].
+                 right. left. repeat split; auto.
+              ** walk. leaf_open Ebud. split; [split; cbn [s_pcur s_delta fst snd]; solve_vec2 Hp Hd|].
+                 right. left. repeat split; auto.
+           ++ walk. leaf_open Ebud. split; [split; cbn [s_pcur s_delta fst snd]; solve_vec2 Hp Hd|].
+              right. right. repeat split; auto.
+        -- walk. leaf_open Ebud. split; [split; cbn [s_pcur s_delta fst snd]; solve_vec2 Hp Hd|].
+           left. repeat split; try reflexivity.
+           all: cbn [s_pcur fst snd]; apply clamped_intro; solve_vec2 Hp Hd.
+      * left. exact (f_equal Brk (St2_eta s)).
+Qed.
 End Char.
 End Core2.
